@@ -60,7 +60,7 @@ func profile(name string) Profile {
 		w["repairabandon"] = 3
 		p.Sweep = 50
 	case "C05":
-		p.CfgMode = "syncany"
+		p.CfgMode = "syncany+async20"
 		w["crashwrite"], w["reopen"], w["closereopen"], w["search"], w["collect"] = 30, 3, 2, 6, 4
 		w["many"], w["bulk"] = 6, 2
 		p.Sweep = 30
@@ -130,7 +130,11 @@ func genCfg(r *rand.Rand, p Profile) Cfg {
 	case "sync":
 	case "cache":
 		c.Cache = true
-	case "syncany":
+	case "syncany", "syncany+async20":
+		if p.CfgMode == "syncany+async20" && pct(r, 20) {
+			// asynchronous histories of the crash profile: the process "dies" at snapcheck points
+			c.Async, c.Thr, c.To = true, 3+r.Intn(4), 3+r.Intn(3)
+		}
 		c.Cache = pct(r, 40)
 		c.Compress = pct(r, 25)
 		c.Lower = pct(r, 15)
@@ -464,7 +468,41 @@ func (e *Exec) GenOp(r *rand.Rand, p Profile) []string {
 		}
 		return ls
 	}
+	if kind == "crashwrite" && e.cfg.Async {
+		kind = "snapscn"
+	}
 	switch kind {
+	case "snapscn":
+		// writes left pending, then a call that commits the schema (or not), then THE PROCESS DIES
+		// (snapcheck: a fresh process on a copy of the directory must be told, or find index = files)
+		var out []string
+		for i, n := 0, 1+r.Intn(3); i < n; i++ {
+			f := genRec(r, e.cfg)
+			if u := e.pickLive(r); u != 0 && pct(r, 40) {
+				f.U = u
+			}
+			out = append(out, "ins "+f.String())
+		}
+		switch r.Intn(6) {
+		case 0:
+			out = append(out, "commit")
+		case 1:
+			if u := e.pickLive(r); u != 0 {
+				if f, ok := e.spec.live[u]; ok && !e.spec.off {
+					f.U = u
+					out = append(out, "flush1c "+f.String())
+				}
+			}
+		case 2:
+			if u := e.pickLive(r); u != 0 {
+				out = append(out, fmt.Sprintf("del %d", u))
+			}
+		case 3:
+			out = append(out, "create")
+		case 4:
+			out = append(out, "flushall")
+		}
+		return append(out, "snapcheck")
 	case "ins":
 		f := genRec(r, e.cfg)
 		if pct(r, 3) && p.Name != "golden" {
